@@ -82,6 +82,10 @@ pub enum Trial {
         expect_only_payload_error: bool,
         /// the next packet of the link is a stop page: its DDW0 must be judged as the expected IHW
         e30_at: Option<u64>,
+        /// a second payload of the same link with the same fault (RDH offset, payload end): the reset must
+        /// happen every time, not only the first
+        #[serde(default)]
+        second: Option<(u64, u64)>,
         label: String,
     },
     /// C19: a view shows exactly what is in the data (unstyled run + styled run).
@@ -419,8 +423,8 @@ impl Trial {
             Trial::RdhWalk { spec, e10, e11, running, label } => run_rdh_walk(ex, spec, e10, e11, *running, label),
             Trial::FsmWalk { words, packet_lens, label } => crate::t_fsm::run_fsm_walk(ex, words, packet_lens, label),
             Trial::Markers { spec, marker_offsets, label } => run_markers(ex, spec, marker_offsets, label),
-            Trial::ExcessPadding { spec, rdh_off, payload_end, expect_only_payload_error, e30_at, label } => {
-                run_excess_padding(ex, spec, *rdh_off, *payload_end, *expect_only_payload_error, *e30_at, label)
+            Trial::ExcessPadding { spec, rdh_off, payload_end, expect_only_payload_error, e30_at, second, label } => {
+                run_excess_padding(ex, spec, *rdh_off, *payload_end, *expect_only_payload_error, *e30_at, *second, label)
             }
             Trial::Views { plain, styled, conforming, label } => {
                 crate::t_views::run_views(ex, plain, styled, *conforming, label)
@@ -590,7 +594,7 @@ impl Trial {
                 "trial": "fsm-walk", "label": label, "words": words.len() / 10, "packets": packet_lens.len()}),
             Trial::Markers { spec, marker_offsets, label } => json!({
                 "trial": "markers", "label": label, "marker_offsets": marker_offsets, "exec": s(spec)}),
-            Trial::ExcessPadding { spec, rdh_off, payload_end, expect_only_payload_error, e30_at, label } => json!({
+            Trial::ExcessPadding { spec, rdh_off, payload_end, expect_only_payload_error, e30_at, label, .. } => json!({
                 "trial": "excess-padding", "label": label, "rdh_offset": rdh_off, "payload_end": payload_end,
                 "expect_only_payload_error": expect_only_payload_error, "e30_at": e30_at, "exec": s(spec)}),
             Trial::Views { plain, conforming, label, .. } => json!({"trial": "views", "label": label, "conforming": conforming, "exec": s(plain)}),
@@ -1214,10 +1218,14 @@ fn run_excess_padding(
     payload_end: u64,
     only: bool,
     e30_at: Option<u64>,
+    second: Option<(u64, u64)>,
     label: &str,
 ) -> TrialOutcome {
     let r = ex.exec(spec);
     ex.fault("excess_padding_payload");
+    if second.is_some() {
+        ex.fault("excess_padding_payload");
+    }
     let mut out = TrialOutcome {
         nontrivial: r.outcome.threads >= 4,
         key: case_key(&spec.input, &r),
@@ -1231,19 +1239,26 @@ fn run_excess_padding(
     let errs = oracle::error_msgs(&r.stderr);
     let tagm = |m: String| format!("{m} [cmd: {}]", spec.cmdline());
     let pe: Vec<&oracle::ErrMsg> = errs.iter().filter(|e| e.text.contains("Payload error following RDH")).collect();
-    if pe.len() != 1 || pe[0].offset != Some(rdh_off) {
+    let mut want_at: Vec<u64> = vec![rdh_off];
+    if let Some((o2, _)) = second {
+        want_at.push(o2);
+    }
+    want_at.sort_unstable();
+    let got_at: Vec<u64> = pe.iter().filter_map(|e| e.offset).collect();
+    if got_at != want_at {
         out.fail = Some(Fail::new(
             "padding",
             "payload-error-count-or-offset",
             tagm(format!(
-                "expected exactly one `Payload error following RDH` at {rdh_off:#X}; got {} at {:?}",
+                "expected exactly one `Payload error following RDH` at each of {want_at:#X?}; got {} at {:?}",
                 pe.len(),
                 pe.iter().map(|e| e.offset).collect::<Vec<_>>()
             )),
         ));
         return out;
     }
-    if let Some(e) = errs.iter().find(|e| e.offset.map_or(false, |o| o > rdh_off && o < payload_end)) {
+    let inside = |o: u64| (o > rdh_off && o < payload_end) || second.map_or(false, |(a, b)| o > a && o < b);
+    if let Some(e) = errs.iter().find(|e| e.offset.map_or(false, inside)) {
         out.fail = Some(Fail::new(
             "padding",
             "message-inside-skipped-payload",
@@ -1254,7 +1269,7 @@ fn run_excess_padding(
     // ([E81]: a calibration-word index sequence that began inside the skipped payload is, rightly, reported
     // when it continues in the next packet - the words that started it were never seen)
     let counted = errs.iter().filter(|e| !e.codes.iter().any(|c| c == "E81")).count();
-    if only && counted != 1 {
+    if only && counted != want_at.len() {
         let other = errs
             .iter()
             .find(|e| !e.text.contains("Payload error following RDH") && !e.codes.iter().any(|c| c == "E81"))
